@@ -8,9 +8,12 @@ def run(tier):
     c = vlib.Check("C11", tier)
     exe = vlib.build(["drv_textenc"])["drv_textenc"]
     c.mc("TextEnc", "MC_TextEnc", workers=8, timeout=900)
-    traces = c.drive(exe, [["@OUT", tier, vlib.SEED]], tag="enc")
-    c.traces = 1
-    lines = open(traces[0]).read().splitlines()
+    traces = c.drive(exe, [["@OUT", tier, sd] for sd in vlib.seeds(tier, 3)], tag="enc")
+    c.traces = len(traces)
+    lines = []
+    for t in traces:
+        ls = open(t).read().splitlines()
+        lines += ls if not lines else ls[1:]
     nsh = 8 if tier == "quick" else 16
     shards = []
     for i in range(nsh):
